@@ -77,7 +77,7 @@ def judge(stats: Stats, text, doc, origin):
         stats.excluded["query-raised:" + type(e).__name__] += 1
         return 0
     n = 0
-    for m in ms[:25]:
+    for m in (ms if len(ms) <= 40 else ms[:25] + ms[25:-10:53] + ms[-10:]):
         parts = tuple(m.parts)
         try:
             node = walk(doc, parts)
@@ -196,8 +196,21 @@ def t_names():
     return stats
 
 
+def t_long():
+    """matches deep inside large documents (index 64.., member 64.., depth 99)"""
+    from ..gen import longq
+    stats = Stats()
+    n = 0
+    docs = longq.long_docs()
+    for doc in (docs[1][:200], {k: v for k, v in list(docs[2].items())[:120]}, docs[3], longq.deep_a(99), docs[5]):
+        for q in ("$[*]", "$..*", "$.b[*].a", "$[-3:]", "$[63:67]", "$..a"):
+            n += judge(stats, q, doc, "long")
+    stats.subspaces.append({"name": "6 queries x 5 large or deep documents, first 25 / last 10 / every 53rd match", "size": n, "exhaustive": True})
+    return stats
+
+
 def tasks(tier, seed):
-    ts = [{"name": "names", "fn": "t_names"}]
+    ts = [{"name": "names", "fn": "t_names"}, {"name": "long", "fn": "t_long"}]
     n = 1200 if tier == "quick" else 20000
     for k in range(16):
         ts.append({"name": "random-%d" % k, "fn": "t_random", "kw": {"seed": mix(seed, ID, k), "n": n}})
